@@ -24,6 +24,7 @@ build_asan() {
 case "$1" in
 setup)
     build
+    (cd srx && cargo build --offline --release >>"$OWLMC_DIR/.build.log" 2>&1) || { echo "MACHINERY ERROR: srx build failed" >&2; tail -n 20 "$OWLMC_DIR/.build.log" >&2; exit 2; }
     exec "$BIN" setup
     ;;
 replay)
@@ -34,6 +35,20 @@ replay)
     build
     TIER="${2:-${VERIF_TIER:-quick}}"
     if [ "$1" = "C19" ] && [ "$TIER" = "thorough" ]; then build_asan; fi
+    if [ "$1" = "C13" ] || [ "$1" = "C14" ]; then
+        # chain properties: the hand-rolled explorer first, then the stateright cross-check of it
+        "$BIN" check "$1" "$TIER"
+        code=$?
+        [ "$code" != "0" ] && exit $code
+        (cd srx && cargo build --offline --release >>"$OWLMC_DIR/.build.log" 2>&1) || {
+            echo "MACHINERY ERROR: stateright cross-check does not build (see .build.log)" >&2
+            exit 2
+        }
+        /verif/.target/srx/release/srx "$1" "$TIER"
+        code=$?
+        [ "$code" = "2" ] && echo "MACHINERY ERROR: stateright and the hand-rolled explorer disagree" >&2
+        exit $code
+    fi
     exec "$BIN" check "$1" "$TIER"
     ;;
 esac
